@@ -189,6 +189,13 @@ def gen_disk(rng):
                     pn = nm + ("p" if nm[-1].isdigit() else "") + str(k)
                     devs.append(dict(name=pn, whole=False, parent=nm, major=major, minor=minor - 16 + len(used),
                                      v=_distinct(rng, 17)))
+    r2 = rng.random()
+    if devs and r2 < 0.06:
+        # a machine that has not done any I/O yet (just booted VM, container seeing only idle loop/ram/data disks): the disks are
+        # listed all the same - every counter of every whole disk (or of every device) reads zero
+        for d in devs:
+            if d["whole"] or r2 < 0.03:
+                d["v"] = [0] * len(d["v"])
     out = dict(mode=mode, era=era, devs=devs)
     if mode == "procfs" and rng.random() < 0.2:
         # /sys/block knows devices the procfs psutil was told to read does not list (PROCFS_PATH names a container's or
